@@ -6,6 +6,7 @@ import (
 	"unicode/utf8"
 
 	"github.com/ddddddO/gtree"
+	"github.com/fatih/color"
 
 	"gtverif/gen"
 	"gtverif/model"
@@ -78,6 +79,23 @@ func runC04(c *Ctx) bool {
 		if r.Chance(1, 5) {
 			cs.Kind = "random-lf"
 			cs.Names[r.Intn(len(cs.Names))] = []string{"a\nb", "\n", "x\r", "\r\n", "a\n", "\nb: c", "line1\nline2\n"}[r.Intn(7)]
+		}
+		c.Journal(cs)
+		evalC04(c, cs)
+		c.Progress(false)
+	}
+	// wide parents around 32 / 64 / 128 / 256 children with repeated names, spines deeper than 64 levels
+	for _, w := range []int{31, 32, 33, 34, 63, 64, 65, 66, 127, 128, 129, 255, 256, 257, -66, -130} {
+		i := idx
+		idx++
+		if !c.Mine(i) {
+			continue
+		}
+		cs := &Case{Idx: i, Kind: "wide-or-deep", Seed: uint64(i)}
+		if w > 0 {
+			cs.Depths, cs.Names = gen.WideDup(w, []int{0, w / 2, w - 2, w - 1})
+		} else {
+			cs.Depths, cs.Names = gen.DeepMixed(-w)
 		}
 		c.Journal(cs)
 		evalC04(c, cs)
@@ -233,6 +251,16 @@ func evalC04(c *Ctx, cs *Case) {
 			}
 			w := mon.NewRecWriter()
 			g := BuildRoot(root)
+			if (cs.Idx+ri)%4 == 0 {
+				// the tree has been shown before, as on a terminal: a coloured dry-run report and a text
+				// output; nothing of that presentation may end up in the encoded values
+				oldNC := color.NoColor
+				color.NoColor = false
+				captureColorOutput(func() { _ = Guard(func() error { return gtree.MkdirFromRoot(g, gtree.WithDryRun()) }) })
+				_ = Guard(func() error { return gtree.OutputFromRoot(mon.NewRecWriter(), g, BranchOptions(3)...) })
+				color.NoColor = oldNC
+				c.Count("encoded_after_a_coloured_dry_run_of_the_same_tree", 1)
+			}
 			o := Guard(func() error { return gtree.OutputFromRoot(w, g, encOpt[enc]) })
 			check("OutputFromRoot", enc, w.Bytes(), o, model.Merge(model.Forest{root}))
 		}
